@@ -322,9 +322,21 @@ func (it *item) coq() string {
 	if gostatsd.MetricType(it.spec.T) == gostatsd.SET {
 		strs = append(strs, "m"+strconv.Itoa(it.id))
 	}
+	kind, pay, member := uint64(it.spec.T), "(zi 0)", ""
+	switch gostatsd.MetricType(it.spec.T) {
+	case gostatsd.COUNTER:
+		kind, pay = 1, hlib.Z(int64(it.bit))
+	case gostatsd.TIMER:
+		kind, pay = 2, hlib.F64(float64(it.id)+0.5)
+	case gostatsd.GAUGE:
+		kind, pay = 3, hlib.F64(float64(it.id))
+	default:
+		kind, member = 4, "m"+strconv.Itoa(it.id)
+	}
 	return hlib.App("WItem", nat(it.batch), hlib.Bool(gostatsd.MetricType(it.spec.T) == gostatsd.GAUGE),
 		hlib.App("Item", nat(it.id), hlib.Bytes(it.spec.Name),
-			hlib.App("tags_key", hlib.Bytes(it.spec.Src), hlib.StrList(it.tags)), hlib.StrList(strs)))
+			hlib.App("tags_key", hlib.Bytes(it.spec.Src), hlib.StrList(it.tags)), hlib.StrList(strs)),
+		hlib.N(kind), pay, hlib.Bytes(member))
 }
 
 // utf8 oracle table: every string the serialiser will see, straight from unicode/utf8
